@@ -28,7 +28,9 @@ SampleOK(e) ==
 \* "plus a constant": two entries of slack (the implementation's trailing list node keeps the key of the entry that used
 \* it last); what the property excludes is retention that grows with the history
 GcSlack(e) == 2
-GcOK(e) == /\ e.keys_collected >= e.removed - GcSlack(e)
+\* never_resident (cache): keys that were removed while their creation was in progress and whose creation then failed
+NeverResident(e) == IF Has(e, "never_resident") THEN e.never_resident ELSE 0
+GcOK(e) == /\ e.keys_collected >= e.removed + NeverResident(e) - GcSlack(e)
            /\ e.vals_collected >= e.removed - GcSlack(e)
            /\ e.len = e.live
 
